@@ -1222,7 +1222,12 @@ Definition do_mcudone (h : hub) (tok : N) (ok : bool) : hub * list out :=
   | Some p => finish_create (set_mcu h h.(h_mcutok) (adel h.(h_mcupending) tok) h.(h_mcuopen)) tok p ok
   end.
 
-Definition do_media (h : hub) (c sid : N) (s : session) (to : recipient) (mk stream media : N) : hub * list out :=
+(* the m-lines of an offer as the driver writes them: bit 0 audio, bit 1 video, bit 2 application, and
+   bits 3 / 4 an audio / video section with port 0 ("bundle-only": the track is sent all the same) *)
+Definition eff_media (m : N) : N := N.lor (N.land m 3) (N.land (N.shiftr m 3) 3).
+
+Definition do_media (h : hub) (c sid : N) (s : session) (to : recipient) (mk stream media0 : N) : hub * list out :=
+  let media := eff_media media0 in
   match to with
   | RSession i =>
       (* the session the message names; 0 when the string is not the id of a live session *)
